@@ -7,7 +7,7 @@ CHECKS = {
  "C12": dict(
   level="model_checking", design="6/C12", engine="sched",
   technique="stateless schedule exploration: preemption-bounded baton scheduler over real threads racing on the real lazycompile wrapper (stub + real Numba compilation), controlled dask scheduler enumerating task orders with bounded deviations, virtual prange (AST transform, one cooperative thread per row); exhaustive configuration product (chunkings x layouts x schedulers x thread counts)",
-  text="All interleavings at line granularity / preemption-bounded at bytecode granularity for 2-3 threads; dask task orders with <=1 (2) deviations for 17 accessor operations; all 32 (y,x) chunkings x 3 (6) layouts x 2 (7) schedulers; all 31 time chunkings (raise or equal eager); pixel permutations; thread counts 1..16; prange body interleavings with <=2 (3) preemptions. Oracle: eager / sequential result, bit-exact. The thread count a kernel asks for (numba.get_num_threads) is enumerated 1..6 on 1..7 rows in the virtualised source. Joint graphs: 15 operation pairs (two auxiliary inputs on one lazy cube; one call on two cubes) evaluated with dask.compute(a, b) and as a - b, 3 chunkings x 2 schedulers, each against its in-memory result. float32 cubes with scalar arguments float32 cannot represent; 26 joint pairs varying one input at a time; other ranks and extents (1-d, 2-d, 4-d, single pixel / row / column); three calls on one object with the input checked untouched. A dask-backed object loaded in place; in-memory data edited in place between calls; joint graphs over two time labellings of the same stored data.",
+  text="All interleavings at line granularity / preemption-bounded at bytecode granularity for 2-3 threads; dask task orders with <=1 (2) deviations for 17 accessor operations; all 32 (y,x) chunkings x 3 (6) layouts x 2 (7) schedulers; all 31 time chunkings (raise or equal eager); pixel permutations; thread counts 1..16; prange body interleavings with <=2 (3) preemptions. Oracle: eager / sequential result, bit-exact. The thread count a kernel asks for (numba.get_num_threads) is enumerated 1..6 on 1..7 rows in the virtualised source. Joint graphs: 15 operation pairs (two auxiliary inputs on one lazy cube; one call on two cubes) evaluated with dask.compute(a, b) and as a - b, 3 chunkings x 2 schedulers, each against its in-memory result. float32 cubes with scalar arguments float32 cannot represent; 26 joint pairs varying one input at a time; other ranks and extents (1-d, 2-d, 4-d, single pixel / row / column); three calls on one object with the input checked untouched. A dask-backed object loaded in place; in-memory data edited in place between calls; joint graphs over two time labellings of the same stored data. Non-index coordinates (scalar, 2-d, per row) across dimension orders and backends.",
   note="Native-code interleavings (GIL-free gufunc loops, Numba threading layer) are not controllable from Python; configurations are enumerated there. The free-running lazy pass is sampling and reported as a supplement."),
  "C13": dict(
   level="translation_validation", design="6/C13", engine="sse-product",
@@ -32,7 +32,7 @@ CHECKS = {
  "C09": dict(
   level="exploration", design="6/C09", engine="sse-product",
   technique="bounded exhaustive enumeration of time axes (subsets of a 9-position lattice) x all begin/end dates on/between/before/after steps, and of set partitions x label spellings for groups; index reference + differential grouped vs per-group ungrouped path",
-  text="Window membership, attrs, ValueError for every invalid window and only those, grouped == per-group ungrouped, spelling invariance, single group == ungrouped, to_linspace / get_calibration_indices directly, 36 dekad groups; axes stamped at 10:30 with begin/end at three times of day; far-away sentinel dates (years 1..9999); call sequences in one process over 21 axes with equal extent. Influence oracle at the kernels: an observation outside the calibration window never influences the indices of other positions (every pixel x window x position, ungrouped and two groupings). Axes of 32767..40000 steps (one group == ungrouped, two groups == per-group, windows beyond position 32767). Every third window also on the dask-backed cube; argument spellings (date types, label containers). Every window also with each pixel alone and the pixels in reverse order.",
+  text="Window membership, attrs, ValueError for every invalid window and only those, grouped == per-group ungrouped, spelling invariance, single group == ungrouped, to_linspace / get_calibration_indices directly, 36 dekad groups; axes stamped at 10:30 with begin/end at three times of day; far-away sentinel dates (years 1..9999); call sequences in one process over 21 axes with equal extent. Influence oracle at the kernels: an observation outside the calibration window never influences the indices of other positions (every pixel x window x position, ungrouped and two groupings). Axes of 32767..40000 steps (one group == ungrouped, two groups == per-group, windows beyond position 32767). Every third window also on the dask-backed cube; argument spellings (date types, label containers). Every window also with each pixel alone and the pixels in reverse order. Numeric labels whose numeric order differs from the order of their spellings.",
   note="Axes of 5 steps (quick) / 3..6 steps (thorough) for windows; 6..7 (9) steps for groups."),
  "C10": dict(
   level="model_checking", design="6/C10", engine="sse-trie",
@@ -82,7 +82,7 @@ CHECKS = {
  "C03": dict(
   level="exploration", design="6/C03", engine="sse-product",
   technique="bounded exhaustive enumeration of words x lambda x p against a reference PLS / 10-pass asymmetric reweighting built from the definition (float64 + long-double refinement, cross-checked with exact rationals), rounding with tie guard band",
-  text="Every word with >=2 valid cells x 6 lambdas x {none,4 p}; whits(s=), whits(sg=raster incl. -inf, also handed over transposed), p incl. 0.5, six dimension orders; deterministic long series n=50..400 incl. series that have not converged after 10 reweighting passes. Argument spellings (s, nodata, sg given with other types / layouts). float64 cubes stored time-first / time in the middle in memory.",
+  text="Every word with >=2 valid cells x 6 lambdas x {none,4 p}; whits(s=), whits(sg=raster incl. -inf, also handed over transposed), p incl. 0.5, six dimension orders; deterministic long series n=50..400 incl. series that have not converged after 10 reweighting passes. Argument spellings (s, nodata, sg given with other types / layouts). float64 cubes stored time-first / time in the middle in memory. Word alphabet with 0 as an observation.",
   note="Either neighbour accepted within 1e-5 of a rounding tie; curves leaving int16 excluded (none in scope)."),
  "C04": dict(
   level="exploration", design="6/C04", engine="sse-product",
@@ -92,7 +92,7 @@ CHECKS = {
  "C05": dict(
   level="exploration", design="6/C05", engine="sse-product",
   technique="bounded exhaustive enumeration of words (>=5 valid), flat-with-spikes {0,5,50}^8, constants and lines with all gap patterns x sranges x robust x p; GCV arg-min under two trace definitions with error bounds; robust mode checked on what the statement fixes",
-  text="Non-robust: grid membership, arg-min admissibility, band = fixed smoother at lopt. Robust: grid membership, lines/constants reproduced, band straddles the data (sum w(y-z)=0 necessary condition), sanity bound. All variants: optimality (KKT) conditions of a weighted Whittaker curve at the reported lambda; long series n=50..200; accessor defaults incl. p=0.5. Argument spellings (srange dtypes and views, robust as np.bool_, defaults spelled out).",
+  text="Non-robust: grid membership, arg-min admissibility, band = fixed smoother at lopt. Robust: grid membership, lines/constants reproduced, band straddles the data (sum w(y-z)=0 necessary condition), sanity bound. All variants: optimality (KKT) conditions of a weighted Whittaker curve at the reported lambda; long series n=50..200; accessor defaults incl. p=0.5. Argument spellings (srange dtypes and views, robust as np.bool_, defaults spelled out). Level shifts of every word with gaps through both robust kernels.",
   note="Robust constants (4.685, 1.4826, passes) are not pinned; placeholder invariance of robust mode is decided in C02."),
  "C06": dict(
   level="exploration", design="6/C06", engine="sse-product",
@@ -102,7 +102,7 @@ CHECKS = {
  "C17": dict(
   level="model_checking", design="6/C17", engine="sse-trie",
   technique="explicit-state exploration of the input trie (every word over {ND,4 letters} to length 7/8, every window) with a sliding-window reference automaton stepped on every edge, run against the compiled kernel and the accessor",
-  text="Every word over a 5-symbol alphabet up to the length bound, every window size, three nodata renderings and four dtypes is executed on the real kernel and compared with a reference automaton; the causality edge relation is checked on every trie transition; mean_grp over every surjective labeling. Complete inside the bound; longer series only through a deterministic family. 1000-step records at levels 26000 / 100000 (record total beyond 2^24, every window sum exact); attribute histories of nodata on one object for rolling.sum and mean_grp. Records of 32767..70000 steps for mean_grp and rolling_sum. Markers reachable by partial sums of the alphabet; argument spellings.",
+  text="Every word over a 5-symbol alphabet up to the length bound, every window size, three nodata renderings and four dtypes is executed on the real kernel and compared with a reference automaton; the causality edge relation is checked on every trie transition; mean_grp over every surjective labeling. Complete inside the bound; longer series only through a deterministic family. 1000-step records at levels 26000 / 100000 (record total beyond 2^24, every window sum exact); attribute histories of nodata on one object for rolling.sum and mean_grp. Records of 32767..70000 steps for mean_grp and rolling_sum. Markers reachable by partial sums of the alphabet; argument spellings. Valid cells right next to the marker.",
   note="Trusts NumPy integer arithmetic for the reference sums; bound: length <= 7 (quick) / 8 (thorough), 4 letters + nodata."),
 }
 
